@@ -287,6 +287,8 @@ func validateFieldContent(msg *Message, checkFieldsHaveValues, checkFieldsOutOfO
 		case inHeader && t.IsHeader():
 		case inHeader && !t.IsHeader():
 			inHeader = false
+			// A message without body fields goes from the header straight into the trailer.
+			inTrailer = t.IsTrailer()
 		case !inHeader && t.IsHeader() && checkFieldsOutOfOrder:
 			return tagSpecifiedOutOfRequiredOrder(t)
 		case t.IsTrailer():
